@@ -146,6 +146,16 @@ Theorem C10_seq_delete : forall tagged os s h rs k, seq_hist tagged kinit [] os 
 Proof. exact seq_history_delete. Qed.
 Print Assumptions C10_seq_delete.
 
+(** long histories: [n >= 1] create/delete cycles of the index at the head of the
+    free list return that index every time, restore the free list and the set of
+    live keys, and leave the cell with generation [(g + n) mod 2^32] - the closed
+    form [cycle_n] that the model driver uses for tens of thousands of cycles *)
+Theorem C10_cycles_closed_form : forall tagged d n s h, in_range (kfree s) ->
+  exists s', seq_hist tagged s h (cyc (kfree s) d (S n)) = Some (s', h, cyc_results (kfree s) d (S n)) /\
+             kst_ext s' (cycle_n tagged s d (Z.of_nat (S n))).
+Proof. exact cycles_closed_form. Qed.
+Print Assumptions C10_cycles_closed_form.
+
 Theorem C10_locked_sequential : forall tagged s h o,
   lseq_op tagged s h o =
   match seq_op tagged s h o with Some (s', h', r) => Some (false, s', h', r) | None => None end.
